@@ -227,7 +227,7 @@ impl Prop for C16 {
     fn describe(&self) -> Describe {
         Describe {
             level: "exploration",
-            rule: "each case = one seeded run of 3-6 complete litep2p nodes running Kademlia on SimNet (line / star / clique bootstrap, replication factor knob) plus ghost peers (refusing address, black-hole address, address no transport can dial, no address): in a third of the runs ghost n+1 is a live peer that speaks the Kademlia protocol name but, after reading a request, stays silent / closes / answers garbage, an empty frame or a well-formed message of the wrong type; materialised user operations (find_node, put_record with each quorum, put_record_to_peers incl. ghosts, get_record, start_providing, get_providers), fault plan (resets, half-closes, byte-offset cuts, partitions, refused / black-holed / slow connects, node kill, process stalls), scheduler kind and knobs; non-trivial = scheduler had >=1 choice point; distinct = distinct trace hash".into(),
+            rule: "each case = one seeded run of 3-6 complete litep2p nodes running Kademlia on SimNet (line / star / clique bootstrap, replication factor knob) plus ghost peers (refusing address, black-hole address, address no transport can dial, no address): in a third of the runs ghost n+1 is a live peer that speaks the Kademlia protocol name but, after reading a request, stays silent / closes / answers garbage, an empty frame or a well-formed message of the wrong type; materialised user operations (find_node, put_record with each quorum, put_record_to_peers incl. ghosts, get_record, start_providing, get_providers), fault plan (resets, half-closes, byte-offset cuts and single-bit corruption in flight, partitions, refused / black-holed / slow connects, node kill with reset or silent vanish, crash + restart with the same identity, process stalls), scheduler kind and knobs; non-trivial = scheduler had >=1 choice point; distinct = distinct trace hash".into(),
             real: vec!["Litep2p", "TransportManager", "TcpTransport", "Noise", "yamux", "Kademlia (event loop, QueryEngine, RoutingTable, MemoryStore, QueryExecutor)", "KademliaHandle", "TransportService"],
             stub: vec!["socket layer (SimNet)", "clock", "task scheduler (seeded)", "HashMap seeds"],
             assumptions: vec![
@@ -295,6 +295,8 @@ impl Prop for C16 {
             }
         }
         faults.extend(nodesim::gen_freeze_faults(seed, n, last + 5000));
+        faults.extend(nodesim::gen_flip_faults(seed));
+        nodesim::add_restarts(seed, &mut faults);
         // ghost n+1 is, in a third of the runs, a live peer speaking the Kademlia protocol badly
         let rogue = {
             let mut r = Rng::fork(seed, "c16-rogue");
@@ -331,7 +333,7 @@ impl Prop for C16 {
         let total = n + 4;
         let last_ms = ops.iter().map(|o| o["at_ms"].as_u64().unwrap_or(0)).max().unwrap_or(0).max(nodesim::last_fault_ms(&faults));
         let horizon_ms = last_ms + 240_000;
-        let killing = faults.iter().any(|f| matches!(f["kind"].as_str(), Some("reset") | Some("half_close") | Some("partition") | Some("byte_reset") | Some("byte_eof") | Some("kill") | Some("freeze")));
+        let killing = faults.iter().any(|f| matches!(f["kind"].as_str(), Some("reset") | Some("half_close") | Some("partition") | Some("byte_reset") | Some("byte_eof") | Some("byte_flip") | Some("kill") | Some("freeze")));
         run_sim(seed, sched, Duration::from_millis(horizon_ms), 8_000_000, verbose, move |handle: Handle| {
             let net = SimNet::new(handle.clone(), seed, NetKnobs::from_json(&case["net"]));
             net.install();
@@ -410,12 +412,50 @@ impl Prop for C16 {
                 let dead = dead.clone();
                 let log = log.clone();
                 let h = handle.clone();
-                nodesim::spawn_fault_driver(&handle, &net, &faults, Some(Arc::new(move |node, vanish| {
-                    if node >= 1 && node <= n && !dead.lock().unwrap().contains_key(&node) {
-                        dead.lock().unwrap().insert(node, vanish);
-                        push(&log, &h, node, K::Killed);
+                // a restarted node (same identity and address, empty routing table and store except for
+                // its bootstrap peers) answers Kademlia requests again; it issues no operations itself
+                let restart: nodesim::RestartFn = {
+                    let (handle, log, knobs, case) = (handle.clone(), log.clone(), knobs.clone(), case.clone());
+                    let keep: Arc<Mutex<Vec<UnboundedSender<Cmd>>>> = Arc::new(Mutex::new(Vec::new()));
+                    Arc::new(move |i: usize| {
+                        if i < 1 || i > n {
+                            return;
+                        }
+                        let prev = node::CURRENT_NODE.with(|c| c.replace(i));
+                        let known: Vec<(PeerId, Vec<Multiaddr>)> = (1..=n).filter(|j| *j != i).map(|j| (peer_id(seed, j), vec![full_addr(seed, j)])).collect();
+                        let (kc, kh) = KadBuilder::new()
+                            .with_replication_factor(case["replication"].as_u64().unwrap_or(20) as usize)
+                            .with_routing_table_update_mode(RoutingTableUpdateMode::Automatic)
+                            .with_known_peers(known.into_iter().collect())
+                            .build();
+                        let cfg = base_config(&handle, seed, i, &knobs).with_libp2p_kademlia(kc).build();
+                        match Litep2p::new(cfg) {
+                            Ok(mut l) => {
+                                handle.event(format!("n{i} restarted"));
+                                handle.probe("node-restarted");
+                                handle.spawn(i, "litep2p-event-loop", async move { while l.next_event().await.is_some() {} });
+                                keep.lock().unwrap().push(spawn_driver(&handle, log.clone(), seed, total, i, kh));
+                            }
+                            Err(e) => handle.event(format!("n{i} restart failed: {e:?}")),
+                        }
+                        node::CURRENT_NODE.with(|c| c.set(prev));
+                    })
+                };
+                nodesim::spawn_fault_driver_ex(&handle, &net, &faults, Some(Arc::new(move |node, vanish| {
+                    if node >= 1 && node <= n {
+                        let mut d = dead.lock().unwrap();
+                        match d.get(&node).cloned() {
+                            None => {
+                                d.insert(node, vanish);
+                                drop(d);
+                                push(&log, &h, node, K::Killed);
+                            }
+                            Some(v) => {
+                                d.insert(node, v || vanish);
+                            }
+                        }
                     }
-                })));
+                })), Some(restart));
             }
             {
                 let dead = dead.clone();
